@@ -24,6 +24,7 @@ RULE = ("(1) invocations 'ofxget stmt <nick> ...' where every configurable optio
         "booleans (CLI can only set True), account lists of length 0-6; (2) histories of 2-5 runs on one ofxget.cfg: write runs (real main() "
         "against the fake server), plain runs, dry runs with --write. A case = one invocation or one history")
 ASSUMPTIONS = ["the built-in default of an option is whatever ofxget.DEFAULTS says; None and '' both mean 'unset' for string options",
+               "'in effect' is judged twice: on the merged option mapping and on the request actually built (dry-run output / what the fake server received: version, format flags, identifiers; unset identifiers and the user id of profile requests are not compared)",
                "UNSPECIFIED, not generated: empty-string CLI values; account numbers containing , ' [ ]; values in the user file's [DEFAULT] section other than the generated clientuid",
                "non-persistable by design (not compared across runs): inctran/incbal/incpos/incoo, dates, years, password",
                "the first --write CREATES the default CLIENTUID: equality of effective values is required from the first run after the write onward"]
